@@ -81,9 +81,10 @@ func NewWriterLevel(w io.Writer, level, wc int) (*Writer, error) {
 		defer bg.wg.Done()
 		for qw := range bg.queue {
 			verifAtC("e.recvq", qw, 0)
-			if !writeOK(bg, <-qw.flush) {
-				break
-			}
+			// Keep draining after a failure so that queued
+			// compressors are released and accounted for;
+			// writeOK writes nothing once an error is set.
+			writeOK(bg, <-qw.flush)
 		}
 	}()
 
@@ -93,11 +94,21 @@ func NewWriterLevel(w io.Writer, level, wc int) (*Writer, error) {
 func writeOK(bg *Writer, c *compressor) bool {
 	defer func() { bg.waiting <- c }()
 
+	if bg.Error() != nil {
+		// A previous block failed: this block must not
+		// reach the underlying writer.
+		c.buf.Reset()
+		c.next = 0
+		bg.qwg.Done()
+		return false
+	}
 	if c.err != nil {
 		bg.setErr(c.err)
+		bg.qwg.Done()
 		return false
 	}
 	if c.buf.Len() == 0 {
+		bg.qwg.Done()
 		return true
 	}
 
